@@ -389,7 +389,10 @@ def c10_known_answer_filter(ctx):
     now = z3.BitVec("now", 64)
     env = ("env", 0)
     ex = Explorer(ctx.funcs, ctx.consts, inline=REC_INLINE | {"is_unique", "halflife_passed"})
-    paths = ex.explore(f.name, args=[Ref(env, ()), None], objs={env: {(0,): BV(now, 64)}})
+    body = " ".join(x for b in f.blocks.values() for x in b[0]) + " ".join(f.debug.values())
+    by_ref = "((*_1).0: &u64)" in body
+    objs = {env: {(0,): Ref(("nowcell", 2), (), mutable=False)}, ("nowcell", 2): {(): BV(now, 64)}} if by_ref else {env: {(0,): BV(now, 64)}}
+    paths = ex.explore(f.name, args=[Ref(env, ()), None], objs=objs)
     rets = [p for p in paths if p.outcome == "return"]
     if ex.unknown_constructs or not rets:
         q.unknown.append("closure not translated: " + "; ".join(ex.unknown_constructs[:3]))
